@@ -57,6 +57,13 @@ static double gen_double(vf::Rng &r, uint64_t variant) {
         if (std::isinf(v)) v = 1.7976931348623157e308;
         return r.chance(1, 4) ? -v : v;
     }
+    if (variant % 13 == 11) {
+        // tiny values with short mantissas (m * 2^-k, m below 2^28; floats widened to double look like this): their
+        // expansions are exact for hundreds of digits and the formatter cuts its big integer while scaling them
+        uint64_t m = 1 + (r.next() % (uint64_t{1} << (1 + r.below(28))));
+        double   v = std::ldexp(double(m), -int(60 + r.below(1010)));
+        return r.chance(1, 4) ? -v : v;
+    }
     switch (variant % 10) {
         case 0: { // uniform over finite bit patterns
             for (;;) {
@@ -141,7 +148,15 @@ static void c11_double(double d) {
     Digit::NumberToString(st, d, Digit::RealFormatInfo{17U});
     QNumber64   n;
     SizeT       off = 0;
-    QNumberType t   = Digit::StringToNumber(n, st.First(), off, st.Length());
+    // The text is parsed where a caller would find it next: one time in three in an exact-size block (a read past the
+    // length is an ASan report), otherwise inside a longer buffer directly followed by a unit that would continue a
+    // numeral ('e', '.', a digit, a sign): the length, not the neighbour, ends the numeral.
+    static unsigned      rot = 0;
+    std::vector<Char_T>  around(st.First(), st.First() + st.Length());
+    static const char    follow[] = {'e', 'E', '.', '7', '0', '-', '+'};
+    if ((++rot % 3) != 0) around.push_back(Char_T(follow[rot % 7]));
+    vf::ExactBuf<Char_T> exact(around.data(), around.size());
+    QNumberType t   = Digit::StringToNumber(n, (const Char_T *)exact.p, off, st.Length());
     double      back;
     switch (t) {
         case QNumberType::Natural: back = double(n.Natural); break;
